@@ -1,14 +1,17 @@
 package main
 
 import (
-	"sync"
 	"context"
 	"errors"
 	"fmt"
+	"github.com/nextdns/nextdns/discovery"
 	"net"
+	"os"
+	"path/filepath"
 	"runtime"
 	"strconv"
 	"strings"
+	"sync"
 	"sync/atomic"
 	"time"
 
@@ -54,6 +57,11 @@ func runListen(n int, udpFail, tcpFail string, stopMs int) string {
 			// EADDRNOTAVAIL (a mistyped listen address, an interface that is gone)
 			host = notAvailHost(i == 3)
 		}
+		if udpFail[i] == '3' || tcpFail[i] == '3' {
+			// a listen address given by NAME: ListenAndServe resolves it through the hosts file
+			// (here: lan-a = 127.0.0.1 and ::1, so this one entry becomes four listeners)
+			host = "lan-a"
+		}
 		addrs[i] = host + ":" + strconv.Itoa(port)
 		if udpFail[i] == '1' {
 			if c, err := net.ListenPacket("udp", addrs[i]); err == nil {
@@ -93,6 +101,22 @@ func runListen(n int, udpFail, tcpFail string, stopMs int) string {
 	for i, a := range addrs {
 		if udpFail[i] == '2' || tcpFail[i] == '2' {
 			continue // cannot be bound by anybody
+		}
+		if udpFail[i] == '3' || tcpFail[i] == '3' {
+			port := a[strings.LastIndex(a, ":")+1:]
+			for _, ra := range []string{"127.0.0.1:" + port, "[::1]:" + port} {
+				if c, err := net.ListenPacket("udp", ra); err != nil {
+					rebind = "busy"
+				} else {
+					c.Close()
+				}
+				if c, err := net.Listen("tcp", ra); err != nil {
+					rebind = "busy"
+				} else {
+					c.Close()
+				}
+			}
+			continue
 		}
 		if c, err := net.ListenPacket("udp", a); err != nil {
 			rebind = "busy"
@@ -230,6 +254,10 @@ func notAvailWorks() bool { return notAvailHost(false) != "" }
 func init() {
 	areas["listen"] = func(c *Ctx) error {
 		r := NewRng(c.seed)
+		// the hosts file ListenAndServe resolves listen names through
+		hf := filepath.Join(c.dir, "listen-hosts")
+		_ = os.WriteFile(hf, []byte("127.0.0.1 localhost lan-a\n::1 lan-a\n"), 0644)
+		discovery.VerifSetHostsFiles([]string{hf})
 		burst := func(n, rounds, rep int) {
 			c.Emit(fmt.Sprintf("listenburst %d %d %d", n, rounds, rep), runListenBurst(n, rounds))
 			c.Stat("kind:burst-allfail")
@@ -286,16 +314,29 @@ func init() {
 				tf = tf[:j] + "2" + tf[j+1:]
 				c.Stat("kind:addr-not-available")
 			}
+			if r.Chance(12) {
+				// one address is a name of the hosts file
+				j := r.Intn(n)
+				if uf[j] == '0' && tf[j] == '0' {
+					uf = uf[:j] + "3" + uf[j+1:]
+					tf = tf[:j] + "3" + tf[j+1:]
+					c.Stat("kind:named-address")
+				}
+			}
 			stop := -1
 			if r.Chance(40) {
 				stop = r.Pick([]int{0, 0, 1, 2, 5, 20, 50})
 			}
 			if stop < 0 && !strings.ContainsAny(uf+tf, "12") {
-				// nothing would ever end serving: make exactly one listener fail
-				if r.Bool() {
-					uf = "1" + uf[1:]
-				} else {
-					tf = "1" + tf[1:]
+				// nothing would ever end serving: make exactly one listener fail (not one of a named address)
+				j := strings.IndexByte(uf, '0')
+				switch {
+				case j < 0:
+					stop = 20
+				case r.Bool():
+					uf = uf[:j] + "1" + uf[j+1:]
+				default:
+					tf = tf[:j] + "1" + tf[j+1:]
 				}
 			}
 			one(n, uf, tf, stop, i)
